@@ -142,6 +142,160 @@ def noise_leaf(rng, kind):
             'ntaps': rng.choice([101, 401])}
 
 
+def fixed_like(rng, fs):
+    """A FixedWaveform subclass whose array the library computes itself (chirp, click, band-limited click, wav file)."""
+    t = rng.choice(['chirp', 'click', 'blclick', 'wav'])
+    cal = rng.random() < 0.5
+    if t == 'chirp':
+        k = rng.randint(1, 400)
+        eq = cal and rng.random() < 0.5
+        return {'t': 'chirp', 'fs': fs, 'f0': rng.uniform(50, fs / 8), 'f1': rng.uniform(fs / 8, fs / 3),
+                'dur': rng.choice([k / fs, (k + 0.5) / fs]), 'level': 80 if cal else 1.0, 'cal': cal,
+                'window': rng.choice(['boxcar', 'hann']), 'equalize': eq}
+    if t == 'click':
+        return {'t': 'click', 'fs': fs, 'dur': rng.randint(0, 40) / fs, 'level': 80, 'polarity': rng.choice([1, -1])}
+    if t == 'blclick':
+        fs = rng.choice([25000.0, 48828.125, 44100.0])
+        return {'t': 'blclick', 'fs': fs, 'fl': rng.choice([1000, 2000]), 'fh': rng.choice([4000, 8000]),
+                'dur': rng.randint(1, 300) / fs, 'level': 80 if cal else 1.0, 'cal': cal,
+                'equalize': cal and rng.random() < 0.5}
+    file_fs = int(fs) if float(fs) == int(fs) and rng.random() < 0.7 else rng.choice([44100, 8000])
+    norm = rng.choice(['pe', 'rms', None])
+    # (a file so short that it resamples to zero samples makes scipy.signal.resample divide by zero inside load_wav:
+    # not generated, no property speaks about it)
+    return {'t': 'wav', 'fs': fs, 'n': rng.randint(int(file_fs / fs) + 2, 300), 'seed': rng.randint(0, 5),
+            'wdtype': rng.choice(['i2', 'f4']),
+            'file_fs': file_fs, 'norm': norm, 'cal': cal and norm is not None, 'level': 80 if cal and norm is not None else None}
+
+
+def vary(rng, tree, transform=True):
+    """The same kind of tree with every node's optional constructor arguments, argument spelling and value
+    representations varied (HARDENING items 1, 2)."""
+    tree = copy.deepcopy(tree)
+    n = tree
+    while True:
+        t = n['t']
+        if rng.random() < 0.4:
+            n['kw'] = True
+        if 'fs' in n and rng.random() < 0.5:
+            n['fsrep'] = rng.choice(['np', 'int'])
+        if rng.random() < 0.35:
+            n['trep'] = rng.choice(['np', 'int'])
+        if t == 'tone' and rng.random() < 0.4:
+            n.update(cal=True, level=rng.choice([60, 94.0]))
+        elif t == 'samtone':
+            n.update(phase=rng.choice([0, 0.3]), phase_lb=rng.choice([0, 0.1]), phase_ub=rng.choice([0, -0.2]),
+                     polarity=rng.choice([1, -1]), eq_power=rng.random() < 0.5, equalize=rng.random() < 0.5)
+            if rng.random() < 0.5:
+                n.update(cal=True, level=80)
+        elif t == 'bbn' and rng.random() < 0.4:
+            n.update(cal=True, level=60)
+        elif t == 'blnoise':
+            n.update(rolloff=rng.choice([1, 0.5]), pass_att=rng.choice([1, 2]), stop_att=rng.choice([80, 60]),
+                     discard=rng.random() < 0.5)
+            if n['rolloff'] == 0.5:
+                n['stop_att'] = 60      # (half an octave and 80 dB: "Unstable filter coefficients", refused)
+            if rng.random() < 0.4:
+                n.update(cal=True, level=60)
+        elif t == 'firnoise':
+            n.update(window=rng.choice(['hann', 'hamming']), polarity=rng.choice([1, -1]),
+                     equalize=rng.random() < 0.5, max_correction=rng.choice([np.inf, 10]))
+        elif t == 'shaped':
+            n.update(window=rng.choice(['hann', 'hamming']), polarity=rng.choice([1, -1]))
+            if rng.random() < 0.4:
+                n.update(cal=True, level=60)
+        elif t == 'fixed':
+            n.update(dtype=rng.choice(['f8', 'f4', 'i2', 'i4', 'u1', 'b']),
+                     layout=rng.choice([None, 'strided', 'rev', 'readonly']))
+        elif t == 'sam':
+            n.update(onset=rng.choice([None, 'silence_transition', 'ss_transition']),
+                     depth=rng.choice([n['depth'], 0.0, 0.75]))
+        elif t == 'sqenv':
+            n.update(duty=rng.choice([n['duty'], 0.0, 1.0]), depth=rng.choice([n['depth'], 0.0]), cal=rng.random() < 0.3)
+        elif t == 'env' and transform and n['window'] != 'cos2factory' and rng.random() < 0.25:
+            n['transform'] = rng.choice(sorted(S.TRANSFORMS))
+        if 'in' not in n:
+            break
+        n = n['in']
+    return tree
+
+
+def int_tree(rng, cls):
+    """Every number a Python int: fs = 1000, times whole seconds (representation `int`)."""
+    fs = 1000.0
+    inner = leaf(rng, fs, ('tone', 'bbn', 'silence'))
+    inner['fsrep'] = 'int'
+    base = {'fs': fs, 'fsrep': 'int', 'trep': 'int', 'in': inner, 'kw': rng.random() < 0.5}
+    if cls == 'gate':
+        return {'t': 'gate', 'start': float(rng.choice([0, 1])), 'dur': float(rng.choice([0, 1, 2])), **base}
+    if cls == 'sam':
+        return {'t': 'sam', 'depth': 1, 'fm': rng.choice([4, 7]), 'delay': float(rng.choice([0, 1])), 'direction': 1, **base}
+    return {'t': 'env', 'window': rng.choice(['hann', 'cos2factory', 'cosine-squared']), 'start': float(rng.choice([0, 1])),
+            'dur': float(rng.choice([1, 2])), 'rise': rng.choice([None, 0.0, 1.0]), **base}
+
+
+def big_tree(rng, cls):
+    """Stimuli whose structural indices lie far beyond the usual sizes (2^16 .. 2^20 samples)."""
+    fs = rng.choice([100000.0, 195312.5, 97656.25])
+    car = leaf(rng, fs, ('tone', 'bbn', 'silence'))
+    k = rng.choice([1 << 16, 1 << 18, (1 << 20) - 3, 1 << 20])
+    if cls == 'gate':
+        return {'t': 'gate', 'fs': fs, 'start': rand_time(rng, fs, 0, 1 << 17), 'dur': rand_time(rng, fs, k, k + 9), 'in': car}
+    if cls == 'env':
+        r = rng.choice([0, 5, 1 << 15, k // 2])
+        return {'t': 'env', 'window': rng.choice(['cosine-squared', 'hann', 'cos2factory']), 'fs': fs,
+                'start': rand_time(rng, fs, 0, 1 << 17), 'dur': k / fs, 'rise': rng.choice([None, r / fs]), 'in': car}
+    if cls == 'sam':
+        return {'t': 'sam', 'fs': fs, 'depth': 0.5, 'fm': fs / rand_period(rng, 50, 30000), 'delay': rand_time(rng, fs, 0, k),
+                'direction': 1, 'in': car}
+    if cls == 'sqenv':
+        return {'t': 'sqenv', 'fs': fs, 'depth': 1.0, 'fm': fs / rand_period(rng, 20000, 90000), 'duty': 0.3, 'alpha': 0.2,
+                'in': car}
+    if cls == 'sqwave':
+        return {'t': 'sqwave', 'fs': fs, 'level': 1.0, 'frequency': fs / rng.randint(20000, 90000), 'duty': 0.4}
+    if cls == 'fixed':
+        return {'t': 'fixed', 'fs': fs, 'n': k + rng.randint(0, 5), 'seed': rng.randint(0, 9)}
+    if cls == 'notch':
+        return notch(rng, fs, leaf(rng, fs, ('bbn',)))
+    if cls == 'repeat':
+        period = rng.randint(500, 70000)
+        return {'t': 'repeat', 'fs': fs, 'n': (1 << 20) // period + 1, 'skip': 1, 'rate': fs / period, 'delay': 3 / fs,
+                'in': {'t': 'fixed', 'fs': fs, 'n': period - 5, 'seed': 1}}
+    return car
+
+
+def one_param_twin(rng, tree):
+    """A copy of `tree` differing in exactly one parameter of its top node (HARDENING item 7)."""
+    t2 = copy.deepcopy(tree)
+    fs = tree.get('fs', 1000.0)
+    t = tree['t']
+    if t in ('gate', 'env'):
+        key = rng.choice(['start', 'dur'] + (['window'] if t == 'env' and tree['window'] != 'cos2factory' else []))
+        if key == 'window':
+            t2['window'] = rng.choice([w for w in S.WINDOWS if w != tree['window']])
+        else:
+            t2[key] = tree[key] + rng.choice([1, 2]) / fs
+    elif t == 'sam':
+        key = rng.choice(['delay', 'depth', 'direction', 'fm'])
+        t2[key] = {'delay': tree['delay'] + 1 / fs, 'depth': tree['depth'] / 2, 'direction': -tree.get('direction', 1),
+                   'fm': tree['fm'] * 1.5}[key]
+    elif t == 'sqenv':
+        key = rng.choice(['depth', 'alpha', 'duty'])
+        t2[key] = {'depth': tree['depth'] / 2, 'alpha': 0.5 if tree.get('alpha', 0) != 0.5 else 1.0,
+                   'duty': tree['duty'] / 2}[key]
+    elif t == 'tone':
+        t2['phase'] = tree.get('phase', 0) + 0.25
+    elif t == 'bbn':
+        t2['seed'] = tree['seed'] + 1
+    elif t == 'fixed':
+        t2['seed'] = tree['seed'] + 1
+    elif t == 'sqwave':
+        t2['level'] = tree['level'] * 2
+    else:
+        return None
+    return t2
+
+
 CLASSES = ['tone', 'samtone', 'silence', 'bbn', 'sqwave', 'fixed', 'gate', 'env', 'cos2', 'sam', 'sqenv',
            'notch', 'repeat', 'nested', 'blnoise', 'firnoise', 'shaped']
 
@@ -171,6 +325,35 @@ def make_tree(rng, cls):
         if rng.random() < 0.3:
             return gate(rng, n['fs'], n)
         return n
+    if cls == 'fixedlike':
+        node = fixed_like(rng, fs)
+        w = rng.choice(['plain', 'plain', 'gate', 'env', 'sam'])
+        if w != 'plain':
+            node = {'gate': gate, 'env': env, 'sam': sam}[w](rng, node['fs'], node)
+        return node
+    if cls == 'wrapped_repeat':
+        node = repeat(rng, fs)
+        if rng.random() < 0.3:      # a repeat of a repeat
+            tot = S.total_of(node)
+            node = {'t': 'repeat', 'fs': fs, 'n': rng.randint(0, 3), 'skip': rng.randint(0, 1),
+                    'rate': fs / (tot + rng.randint(0, 3) + 1), 'delay': rng.randint(0, 1) / fs, 'in': node}
+        for _ in range(rng.randint(1, 2)):
+            w = rng.choice(['gate', 'env', 'sam', 'sqenv', 'notch'])
+            node = {'gate': gate, 'env': env, 'sam': sam, 'sqenv': sqenv, 'notch': notch}[w](rng, fs, node)
+        return node
+    if cls == 'repeat_reject':
+        node = repeat(rng, fs)
+        inner = node['in']
+        period = int(round(fs / node['rate']))
+        room = period - int(round(fs * node['delay']))
+        over = room + rng.choice([1, 1, 2, 50])
+        if inner['t'] == 'fixed':
+            inner['n'] = over
+        else:
+            inner.update(start=0.0, dur=over / fs)
+            if inner['t'] == 'env':
+                inner['rise'] = None
+        return node
     if cls == 'nested':
         node = leaf(rng, fs, ('tone', 'bbn', 'silence', 'fixed', 'sqwave', 'samtone'))
         for _ in range(rng.randint(2, 4)):
@@ -189,14 +372,117 @@ def sq_nodes(node):
     return out + (sq_nodes(node['in']) if 'in' in node else [])
 
 
+def sqwave_nodes(node):
+    out = [node] if node['t'] == 'sqwave' else []
+    return out + (sqwave_nodes(node['in']) if 'in' in node else [])
+
+
+MODEL_COST = 4e7     # the model's stride loops are O(chunk length x periods in the chunk)
+
+
 def model_applies(tree, chunks):
-    """The rational model of square_wave applies when the float expressions are exact (see notes)."""
+    """The rational model of square_wave applies when the float expressions are exact (see notes); trees with an
+    envelope transform (an arbitrary callable) and chunks too long for the model's quadratic square-wave
+    loops are checked by the direct oracle only."""
+    if S.has_transform(tree):
+        return False
     n = sum(chunks)
     offs = np.cumsum([0] + list(chunks))[:-1]
+    periods = [float(S.sq_ints(q)[0]) for q in sq_nodes(tree)] + \
+              [int(round(q['fs'] / q['frequency'])) for q in sqwave_nodes(tree)]
+    for P in periods:
+        if P > 0 and sum(m * (m / P + 1) for m in chunks) > MODEL_COST:
+            return False
     for q in sq_nodes(tree):
         if not S.square_exact(q, n + 2) or not S.square_offsets_exact(q, [int(o) for o in offs]):
             return False
     return True
+
+
+def scribble(x):
+    """The caller overwrites an array the library handed out."""
+    try:
+        x[...] = 7.5
+    except (ValueError, TypeError):
+        pass
+
+
+NTYPES = {'i64': np.int64, 'i32': np.int32}
+
+
+class memory_cap:
+    """While a fragment beyond sample 2^31 is requested the process may not grow by more than 2 GiB: a library
+    that answers with the envelope from sample 0 fails with MemoryError (reported) instead of taking 16 GiB."""
+
+    def __init__(self, on):
+        self.on = on
+
+    def __enter__(self):
+        if not self.on:
+            return
+        import resource
+        self.old = resource.getrlimit(resource.RLIMIT_AS)
+        try:
+            vm = int(open('/proc/self/statm').read().split()[0]) * resource.getpagesize()
+            cap = vm + (2 << 30)
+            if self.old[1] != resource.RLIM_INFINITY:
+                cap = min(cap, self.old[1])
+            resource.setrlimit(resource.RLIMIT_AS, (cap, self.old[1]))
+        except (OSError, ValueError):
+            self.on = False
+
+    def __exit__(self, *exc):
+        if self.on:
+            import resource
+            resource.setrlimit(resource.RLIMIT_AS, self.old)
+        return False
+
+
+def pristine_batch(jobs):
+    """Single requests [(tree, n)] computed in ONE fresh interpreter that builds nothing but these trees: the
+    references of the second objects of all twin cases (no first object ever existed in that interpreter)."""
+    import io
+    import json
+    import os
+    import subprocess
+    import sys
+    code = ('import sys, json, io, numpy as np\n'
+            'sys.path.insert(0, sys.argv[1])\n'
+            'from harness import stim_common as S\n'
+            'out = {}\n'
+            'for i, (tree, n) in enumerate(json.load(sys.stdin)):\n'
+            '    try:\n'
+            '        out[str(i)] = np.asarray(S.build_real(tree).next(n), dtype=np.float64)\n'
+            '    except (ValueError, ZeroDivisionError) as e:\n'
+            '        out[str(i)] = np.array(type(e).__name__)\n'
+            'buf = io.BytesIO(); np.savez(buf, **out); sys.stdout.buffer.write(buf.getvalue())\n')
+    env = dict(os.environ, PSI_REPO=C.REPO, PYTHONDONTWRITEBYTECODE='1')
+    r = subprocess.run([sys.executable, '-c', code, C.VERIF], input=json.dumps(jobs).encode(), capture_output=True,
+                       env=env, timeout=600)
+    if r.returncode != 0:
+        raise RuntimeError('reference interpreter failed: ' + r.stderr.decode()[-300:])
+    z = np.load(io.BytesIO(r.stdout))
+    return [z[str(i)] for i in range(len(jobs))]
+
+
+def pristine_draw(tree, n):
+    """One single request for n samples, computed in a fresh interpreter (no module-level state of this
+    process can have leaked into it)."""
+    import json
+    import os
+    import subprocess
+    import sys
+    code = ('import sys, json, numpy as np\n'
+            'sys.path.insert(0, sys.argv[1])\n'
+            'from harness import stim_common as S\n'
+            'a = np.asarray(S.build_real(json.loads(sys.argv[2])).next(int(sys.argv[3])), dtype=np.float64)\n'
+            'sys.stdout.buffer.write(a.tobytes())\n')
+    env = dict(os.environ, PSI_REPO=C.REPO, PYTHONDONTWRITEBYTECODE='1')
+    r = subprocess.run([sys.executable, '-c', code, C.VERIF, json.dumps(tree), str(n)], capture_output=True, env=env,
+                       timeout=300)
+    if r.returncode != 0:
+        raise RuntimeError('pristine interpreter failed: ' + r.stderr.decode()[-300:])
+    return np.frombuffer(r.stdout, dtype=np.float64)
 
 
 # ---------------------------------------------------------------------------------------
@@ -219,13 +505,24 @@ class C01(Spec):
         'WavSequenceFactory, wav loading, chirp/click waveform synthesis are not modelled (Chirp/Click/WavFile factories '
         'are FixedWaveform instances over an opaque array)',
     ]
-    ASSUMPTIONS = ['start, duration, rise, delay >= 0; chunk sizes >= 0; carriers produce finite samples']
+    ASSUMPTIONS = ['start, duration, rise, delay >= 0; chunk sizes >= 1 (Python int or signed NumPy integer); carriers produce finite samples']
     RULE = ('per generator class: seeded random parameters (fs in {1000, 25000, 44100, 48828.125, 97656.25, 100000, '
             '195312.5}; times on the sample grid, off it and at .5 ties; modulation periods integer, dyadic, '
             'non-terminating), N up to ~1500 incl. past the end of finite stimuli, random partitions and partitions '
             'with cuts at -2..+2 around every structural index; function-level fragments (envelope, _sam_envelope, '
             'square_wave) at random and boundary (offset, samples). Non-trivial = at least two chunks (factory) / '
-            'offset > 0 (fragment); distinct = distinct case hash.')
+            'offset > 0 (fragment); distinct = distinct case hash. Hardening block (kinds tagged /var /int /hist /scale '
+            '/many /route /huge): every constructor option at a non-default value, all-positional vs all-keyword spelling, '
+            'fs and times as Python int / NumPy scalar, fixed arrays of dtype f4/i2/i4/u1/bool and strided / reversed / '
+            'read-only layout, the FixedWaveform subclasses (chirp, click, band-limited click, wav file incl. resampling), '
+            'repeat inside other factories and of a repeat, rejected repeats; histories with reset() (before any draw, '
+            'mid-way, after completion, twice), get_samples_remaining(), np.int64/np.int32 chunk sizes, the caller '
+            'overwriting every chunk it received, a second object over the same ndarray or differing in one parameter drawn '
+            'interleaved (reference from a separate interpreter), single requests recomputed in a fresh interpreter; chunks '
+            'of 2^16..2^20 samples mixed with 1-sample chunks, 3000-draw histories; fragment functions through '
+            'cos2envelope / sam_envelope / keyword spelling / samples=auto / transform / repeated call after the caller '
+            'overwrote the result, tone and sam_tone fragments, offsets beyond 2^31 (reference: a longer fragment starting '
+            'up to 40 samples earlier).')
     exhaustive_note = {
         'thorough': 'all 2^(N-1) ordered partitions for N <= 12 of gate/envelope/sam/square/fixed/repeat factories '
                     'with parameters (start, duration, rise, delay, period) <= 6 samples',
@@ -235,6 +532,7 @@ class C01(Spec):
         self.cache = S.ModelCache('stim')
         self._calls = 0
         self._last = None
+        self.twin_ref = {}
 
     # ---- cases -----------------------------------------------------------------------
     def gen_cases(self, rng, tier):
@@ -305,8 +603,187 @@ class C01(Spec):
                     for n in (1, 4, 9):
                         yield {'kind': 'square_fn', 'fs': 1000.0, 'depth': 0.5, 'fm': 1000.0 / P, 'duty': duty,
                                'alpha': 0.5, 'off': off, 'n': n}
+        yield from self.hardening_cases(rng, tier)
         if tier == 'thorough':
             yield from self.exhaustive_cases()
+
+    # ---- HARDENING.md: input shapes and histories beyond the main generators ------------------------
+    @staticmethod
+    def pick_n(rng, tree):
+        total = S.total_of(tree)
+        marks = S.marks_of(tree)
+        top = max([total or 0] + [k for k in marks if k < 3000])
+        n = min(top + rng.choice([0, 1, 5, 40, 300]), 4000) if rng.random() < 0.8 else rng.randint(1, 1500)
+        return max(n, 1), marks
+
+    def hardening_cases(self, rng, tier):
+        quick = tier == 'quick'
+        noise = ('blnoise', 'firnoise', 'shaped')
+        extra = ['fixedlike', 'wrapped_repeat', 'repeat_reject']
+        # items 1, 2: representations, spellings, every constructor option at a non-default value, every
+        # public FixedWaveform subclass, repeat nested inside other factories, rejected repeats
+        for cls in CLASSES + extra:
+            m = (4 if quick else 20) if cls in noise else (40 if quick else 200)
+            for i in range(m):
+                tree = make_tree(rng, cls)
+                if cls not in extra or i % 2:
+                    tree = vary(rng, tree)
+                if cls == 'repeat' and i % 3 == 0:
+                    # period and delay at exact .5-sample ties (a repeat that no longer fits is refused by the single
+                    # request and by every chunking alike)
+                    period = int(round(tree['fs'] / tree['rate']))
+                    tree['rate'] = tree['fs'] / (period + 0.5)
+                    tree['delay'] = (int(round(tree['fs'] * tree['delay'])) + 0.5) / tree['fs']
+                n, marks = self.pick_n(rng, tree)
+                chunks = rng.chunks(n, 8) if rng.random() < 0.5 else S.boundary_chunks(rng, n, marks)
+                yield {'kind': 'factory', 'cls': cls, 'tree': tree, 'chunks': chunks, 'tag': 'var'}
+        for cls in ('gate', 'env', 'sam'):
+            for _ in range(15 if quick else 60):
+                tree = int_tree(rng, cls)
+                n, marks = self.pick_n(rng, tree)
+                yield {'kind': 'factory', 'cls': cls, 'tree': tree, 'chunks': S.boundary_chunks(rng, n, marks), 'tag': 'int'}
+        # items 5, 6, 7: reset and re-use (after partial draws, after completion, twice in a row, before any draw),
+        # get_samples_remaining(), NumPy integer chunk sizes, the caller overwriting what it received, a second
+        # object (same arrays / one parameter changed) drawn interleaved, references from a fresh interpreter
+        n_pristine = 4 if quick else 24
+        for cls in CLASSES + extra[:2]:
+            m = (12 if quick else 40) if cls in noise else (40 if quick else 200)
+            for _ in range(m):
+                tree = make_tree(rng, cls)
+                if rng.random() < 0.4:
+                    tree = vary(rng, tree)
+                n, marks = self.pick_n(rng, tree)
+                total = S.total_of(tree)
+                c = {'kind': 'factory', 'cls': cls, 'tree': tree, 'tag': 'hist'}
+                if total and total > 1 and rng.random() < 0.4:
+                    n = rng.randint(1, total - 1)
+                    c['gsr'] = total - n
+                c['chunks'] = rng.chunks(n, 6) if rng.random() < 0.5 else S.boundary_chunks(rng, n, marks)
+                pre = []
+                for _ in range(rng.choice([0, 1, 1, 1, 2, 3])):
+                    k = rng.choice([0, 1, n, n + 7, rng.randint(1, n + 300)])
+                    pre.append(rng.chunks(k, 4) if k else [])
+                if pre:
+                    c['pre'] = pre
+                if rng.random() < 0.3:
+                    c['ntype'] = rng.choice(['i64', 'i32'])
+                if rng.random() < 0.4:
+                    c['mutate'] = True
+                r = rng.random()
+                if r < 0.15:
+                    c['twin'] = {'tree': tree, 'chunks': rng.chunks(n, 6)}
+                    c['share'] = True
+                elif r < 0.35:
+                    t2 = one_param_twin(rng, tree)
+                    if t2 is not None:
+                        c['twin'] = {'tree': t2, 'chunks': list(c['chunks'])}
+                        c['share'] = True       # equal `fixed` leaves below the changed node: one ndarray for both
+                if n_pristine and cls in ('gate', 'env', 'cos2', 'sam', 'sqenv', 'tone', 'fixed', 'notch') \
+                        and rng.random() < 0.2:
+                    c['pristine'] = True
+                    n_pristine -= 1
+                yield c
+        # item 3: far beyond the usual sizes; tiny and huge requests mixed; thousands of draws
+        for cls in ('tone', 'gate', 'env', 'sam', 'sqenv', 'sqwave', 'fixed', 'notch', 'repeat'):
+            for _ in range(1 if quick else 4):
+                tree = big_tree(rng, cls)
+                marks = [k for k in S.marks_of(tree) if k > 0]
+                if marks and rng.random() < 0.6:
+                    chunks = S.boundary_chunks(rng, max(marks) + rng.choice([1, 70000]), marks)
+                else:
+                    chunks = rng.choice([[1 << 20, 1, (1 << 16) + 3], [3, (1 << 20) + 5, 1], [1 << 16, 1 << 16, (1 << 20) - 1, 7]])
+                yield {'kind': 'factory', 'cls': cls, 'tree': tree, 'chunks': chunks, 'tag': 'scale'}
+        for cls in rng.sample(CLASSES[:14], 3 if quick else 10):
+            tree = make_tree(rng, cls)
+            yield {'kind': 'factory', 'cls': cls, 'tree': tree, 'chunks': [rng.randint(1, 3) for _ in range(3000)],
+                   'tag': 'many'}
+        # fragment functions: every public spelling, sample indices beyond 2^31
+        nfn = 300 if quick else 2000
+        for i in range(nfn):
+            fs = rng.choice(S.FS_LIST)
+            huge = i % 5 == 0
+            e = env(rng, fs, None, span=300, window=rng.choice(S.WINDOWS), valid=rng.random() < 0.95)
+            if huge:
+                e['start'] = ((1 << 31) + rng.randint(-3, 1 << 20) + rng.choice([0, 0.5])) / fs
+            lb, dur, rise = S.env_ints(e)
+            r = dur // 2 if rise is None else rise
+            marks = [lb, lb + r, lb + dur - r, lb + dur]
+            off = max(0, rng.choice(marks) + rng.randint(-2, 2))
+            c = {'kind': 'envelope_fn', 'window': e['window'], 'fs': fs, 'dur': e['dur'], 'rise': e['rise'],
+                 'start': e['start'], 'off': off, 'n': rng.choice([0, 1, 2, rng.randint(0, 400)]), 'tag': 'huge' if huge else 'route'}
+            route = rng.choice(['kw', 'cos2', 'cos2kw', 'auto', 'np', 'again', 'transform', 'rep'])
+            if route in ('cos2', 'cos2kw'):
+                c['window'] = 'cosine-squared'
+            if route == 'auto':
+                c['n'] = lb + dur
+            if route == 'again':
+                c['again'] = True
+            elif route == 'transform':
+                c['transform'] = rng.choice(sorted(S.TRANSFORMS))
+            elif route == 'rep':
+                c['fsrep'] = rng.choice(['np', 'int'])
+            else:
+                c['route'] = route
+            if huge:
+                c['base'] = max(0, off - rng.randint(0, 40))
+                if route == 'auto':
+                    c.pop('route')
+                    c['n'] = rng.randint(0, 50)
+            yield c
+        for i in range(nfn // 2):
+            fs = rng.choice(S.FS_LIST)
+            huge = i % 5 == 0
+            s = sam(rng, fs, None, span=300)
+            if huge:
+                s['delay'] = ((1 << 31) + rng.randint(0, 1 << 20)) / fs
+            d = int(s['delay'] * fs)
+            off = max(0, d + rng.randint(-3, 40))
+            c = {'kind': 'sam_fn', 'fs': fs, 'depth': rng.choice([s['depth'], 0.0]), 'fm': s['fm'], 'delay': s['delay'],
+                 'off': off, 'n': rng.choice([0, 1, 2, max(0, d - off + 1), rng.randint(0, 300)]),
+                 'tag': 'huge' if huge else 'route'}
+            route = rng.choice(['public', 'publickw', 'np', 'again', 'public'])
+            if route == 'again':
+                c['again'] = True
+            else:
+                c['route'] = route
+            if route.startswith('public') and rng.random() < 0.1:
+                c['equalize'] = False
+            if huge:
+                c['base'] = max(0, off - rng.randint(0, 40))
+            yield c
+        for i in range(nfn // 2):
+            fs = rng.choice(S.FS_LIST)
+            huge = i % 5 == 0
+            q = sqenv(rng, fs, None)
+            P, duty = S.sq_ints(q)
+            st = S.rhe(P * (rng.randint(0, 8) + (int((1 << 31) / P) if huge else 0)))
+            off = max(0, rng.choice([st, st + duty]) + rng.randint(-2, 2))
+            c = {'kind': 'square_fn', 'fs': fs, 'depth': q['depth'], 'fm': q['fm'], 'duty': rng.choice([q['duty'], 0.0]),
+                 'alpha': q['alpha'], 'off': off, 'n': rng.choice([0, 1, 2, 3, rng.randint(0, 300)]),
+                 'tag': 'huge' if huge else 'route'}
+            route = rng.choice(['kw', 'noalpha', 'np', 'again'])
+            if route == 'again':
+                c['again'] = True
+            else:
+                c['route'] = route
+                if route == 'noalpha':
+                    c['alpha'] = 0
+            if huge:
+                c['base'] = max(0, off - rng.randint(0, 3 * int(P) + 3))
+            yield c
+        for i in range(nfn // 3):
+            fs = rng.choice(S.FS_LIST)
+            huge = i % 4 == 0
+            off = (1 << 31) + rng.randint(-2, 1 << 22) if huge else rng.randint(1, 5000)
+            c = {'kind': rng.choice(['tone_fn', 'samtone_fn']), 'fs': fs, 'frequency': rng.uniform(20, fs / 4),
+                 'fc': rng.uniform(100, fs / 4), 'fm': rng.uniform(2, 90), 'level': rng.choice([1.0, 0.37]),
+                 'phase': rng.choice([0, 0.5]), 'polarity': rng.choice([1, -1]), 'off': off, 'n': rng.randint(0, 300),
+                 'tag': 'huge' if huge else 'route'}
+            if rng.random() < 0.4:
+                c['route'] = rng.choice(['kw', 'np'])
+            if huge:
+                c['base'] = off - rng.randint(0, 40)
+            yield c
 
     def exhaustive_cases(self):
         fs = 1000.0
@@ -351,20 +828,33 @@ class C01(Spec):
             self.cache.fill(allc + self.corpus(), self.model_lines)
         except Exception:
             pass                      # driver unavailable: impl_lines falls back / reports
+        tw = [c for c in allc if c['kind'] == 'factory' and c.get('twin') and c['twin']['tree'] != c['tree']]
+        try:
+            refs = pristine_batch([(c['twin']['tree'], sum(c['twin']['chunks'])) for c in tw]) if tw else []
+            for c, a in zip(tw, refs):
+                self.twin_ref[C.case_hash(c)] = a
+        except Exception:
+            pass                      # no reference interpreter: the in-process reference is used
         yield from allc
 
     # ---- lines -------------------------------------------------------------------------
     @staticmethod
     def histories(c):
+        """Chunk-size lists, each drawn from a fresh generator (exh: a new object per list; factory: one object,
+        `reset()` between the lists).  `gsr` = the count the last draw obtains through get_samples_remaining()."""
         if c['kind'] == 'exh':
             return list(S.all_partitions(c['N']))
-        return [c['chunks']]
+        return [list(h) for h in c.get('pre', [])] + [list(c['chunks']) + ([c['gsr']] if c.get('gsr') else [])]
 
     def model_lines(self, c):
         k = c['kind']
         if k in ('factory', 'exh'):
             hs = self.histories(c)
-            if not model_applies(c['tree'], max(hs, key=len) if k == 'exh' else hs[0]):
+            if k == 'exh':
+                ok = model_applies(c['tree'], max(hs, key=len))
+            else:
+                ok = all(model_applies(c['tree'], h) for h in hs)
+            if not ok:
                 return []
             expr = S.Plan(c['tree']).expr
             out = []
@@ -373,10 +863,16 @@ class C01(Spec):
                 out.extend(f'next {n}' for n in h)
             return out
         if k == 'envelope_fn':
+            if c.get('transform'):
+                return []
             lb, dur, rise = S.env_ints(c)
             return [f"envelope {lb} {dur} {'n' if rise is None else rise} {c['off']} {c['n']}"]
         if k == 'sam_fn':
+            if c.get('equalize', True) is False:
+                return []
             return [f"sam_envelope {int(c['delay'] * c['fs'])} {c['off']} {c['n']}"]
+        if k in ('tone_fn', 'samtone_fn'):
+            return []
         if k == 'square_fn':
             if not (S.square_exact(c, c['off'] + c['n'] + 2) and S.square_offsets_exact(c, [c['off']])):
                 return []
@@ -408,41 +904,141 @@ class C01(Spec):
         i = int(np.flatnonzero(val != arr)[0])
         return f'ok DIFF at {i}: cell {S.cell_at(mline[3:], i)} = {val[i]!r}, real {arr[i]!r}'
 
+    ERRS = (ValueError, ZeroDivisionError)
+
     def run_factory(self, c):
-        """Real factory drawn along every history of the case: list of (error | list of chunks)."""
-        out = []
-        for h in self.histories(c):
-            try:
-                f = S.build_real(c['tree'])
-            except (ValueError, ZeroDivisionError) as e:
-                out.append(type(e).__name__)
-                continue
-            chunks = []
-            for n in h:
+        """Real factory drawn along every history of the case: list of (error | list of chunks).  Optional case
+        fields: `pre` (histories drawn before a reset()), `gsr` (last draw through get_samples_remaining()),
+        `ntype` (NumPy integer chunk sizes), `mutate` (the caller overwrites every chunk it received),
+        `twin` (a second object, built right after the first and drawn interleaved with it; `share`: both are
+        built over the same ndarray objects).  The twin's draws are appended as a last entry."""
+        if c['kind'] == 'exh':
+            out = []
+            for h in self.histories(c):
                 try:
-                    chunks.append(np.array(f.next(n)))
-                except (ValueError, ZeroDivisionError) as e:
-                    chunks.append(type(e).__name__)
+                    f = S.build_real(c['tree'])
+                except self.ERRS as e:
+                    out.append(type(e).__name__)
+                    continue
+                chunks = []
+                for n in h:
+                    try:
+                        chunks.append(np.array(f.next(n)))
+                    except self.ERRS as e:
+                        chunks.append(type(e).__name__)
+                out.append(chunks)
+            return out
+        hs = self.histories(c)
+        twin = c.get('twin')
+        pool = {} if c.get('share') else None
+        conv = NTYPES.get(c.get('ntype'), int)
+        mutate = c.get('mutate')
+        try:
+            f = S.build_real(c['tree'], pool)
+        except self.ERRS as e:
+            return [type(e).__name__ for _ in hs] + ([[]] if twin else [])
+        g, gq, gout = None, [], []
+        if twin:
+            try:
+                g = S.build_real(twin['tree'], pool)
+                gq = list(twin['chunks'])
+            except self.ERRS as e:
+                gout = type(e).__name__
+
+        def draw(obj, n, rest=False):
+            try:
+                x = obj.get_samples_remaining() if rest else obj.next(conv(n))
+            except self.ERRS as e:
+                return type(e).__name__
+            keep = np.array(x)
+            if mutate:
+                scribble(x)
+            return keep
+
+        out = []
+        for i, h in enumerate(hs):
+            if i > 0:
+                f.reset()
+            chunks = []
+            for j, n in enumerate(h):
+                rest = bool(c.get('gsr')) and i == len(hs) - 1 and j == len(h) - 1
+                chunks.append(draw(f, n, rest))
+                if gq:
+                    gout.append(draw(g, gq.pop(0)))
             out.append(chunks)
+        while gq:
+            gout.append(draw(g, gq.pop(0)))
+        if twin:
+            out.append(gout)
         return out
 
-    def call_fn(self, c, off=None, n=None):
+    def call_fn(self, c, off=None, n=None, ref=False):
+        """The fragment function of the case.  `ref`: the reference request (plain positional spelling, explicit
+        sample count); otherwise the case's `route` selects the public spelling under test: `kw` keyword arguments,
+        `cos2` stim.cos2envelope, `auto` samples left at its default, `public` stim.sam_envelope, `np` NumPy
+        integer offset / count, `transform` a pointwise transform; `again`: the caller overwrites the first result
+        and asks again."""
         from psiaudio import stim
         off = c['off'] if off is None else off
         n = c['n'] if n is None else n
         k = c['kind']
-        try:
+        route = c.get('route')
+        if ref:     # same function, plain spelling
+            route = {'cos2kw': 'cos2', 'cos2': 'cos2', 'public': 'public', 'publickw': 'public'}.get(route)
+        fs = c['fs'] if ref else S.rep(c['fs'], c.get('fsrep'))
+        if route == 'np':
+            off, n = np.int64(off), np.int64(n)
+
+        def once():
             if k == 'envelope_fn':
-                return np.array(stim.envelope(c['window'], c['fs'], c['dur'], c['rise'], off, c['start'], n))
+                tf = S.TRANSFORMS[c['transform']] if c.get('transform') else None
+                if route == 'kw':
+                    return stim.envelope(window=c['window'], fs=fs, duration=c['dur'], rise_time=c['rise'], offset=off,
+                                         start_time=c['start'], samples=n, transform=tf)
+                if route == 'cos2':
+                    return stim.cos2envelope(fs, c['dur'], c['rise'], off, c['start'], n)
+                if route == 'cos2kw':
+                    return stim.cos2envelope(fs=fs, duration=c['dur'], rise_time=c['rise'], offset=off,
+                                             start_time=c['start'], samples=n)
+                if route == 'auto':
+                    return stim.envelope(c['window'], fs, c['dur'], c['rise'], off, c['start'])
+                if tf is not None:
+                    return stim.envelope(c['window'], fs, c['dur'], c['rise'], off, c['start'], n, tf)
+                return stim.envelope(c['window'], fs, c['dur'], c['rise'], off, c['start'], n)
             if k == 'sam_fn':
+                if route == 'public':
+                    return stim.sam_envelope(off, n, fs, c['depth'], c['fm'], c['delay'], c.get('equalize', True))
+                if route == 'publickw':
+                    return stim.sam_envelope(offset=off, samples=n, fs=fs, depth=c['depth'], fm=c['fm'], delay=c['delay'],
+                                             equalize=c.get('equalize', True))
                 f = S.build_real({'t': 'sam', 'fs': c['fs'], 'depth': c['depth'], 'fm': c['fm'], 'delay': c['delay'],
                                   'in': {'t': 'silence', 'fill': 1}})
-                return np.array(stim._sam_envelope(off, n, f.fs, f.depth, f.fm, f.delay, f.eq_phase, f.eq_power))
+                return stim._sam_envelope(off, n, f.fs, f.depth, f.fm, f.delay, f.eq_phase, f.eq_power)
             if k == 'square_fn':
-                return np.array(stim.square_wave(c['fs'], off, n, c['depth'], c['fm'], c['duty'], c['alpha']))
-        except ValueError as e:
+                if route == 'kw':
+                    return stim.square_wave(fs=fs, offset=off, samples=n, depth=c['depth'], fm=c['fm'],
+                                            duty_cycle=c['duty'], alpha=c['alpha'])
+                if route == 'noalpha':
+                    return stim.square_wave(fs, off, n, c['depth'], c['fm'], c['duty'])
+                return stim.square_wave(fs, off, n, c['depth'], c['fm'], c['duty'], c['alpha'])
+            if k == 'tone_fn':
+                if route == 'kw':
+                    return stim.tone(fs=fs, frequency=c['frequency'], level=c['level'], phase=c['phase'],
+                                     polarity=c['polarity'], calibration=None, samples=n, offset=off)
+                return stim.tone(fs, c['frequency'], c['level'], c['phase'], c['polarity'], None, n, off)
+            if k == 'samtone_fn':
+                return stim.sam_tone(fs, c['fc'], c['fm'], c['level'], 1, c['phase'], 0, 0, c['polarity'], None, n, off)
+            raise KeyError(k)
+
+        try:
+            with memory_cap(off + n > 1 << 24):
+                x = once()
+                if c.get('again') and not ref:
+                    scribble(x)
+                    x = once()
+                return np.array(x)
+        except (ValueError, ZeroDivisionError, MemoryError) as e:
             return type(e).__name__
-        raise ValueError(k)
 
     def fn_plan(self, c):
         k = c['kind']
@@ -469,6 +1065,7 @@ class C01(Spec):
                 return []
             mout = self.model_out(c, ml)
             plan = S.Plan(c['tree'])
+            plan.hint = max(sum(h) for h in self.histories(c))
             tol = self.tol(c)
             scale = 1.0
             if tol:
@@ -521,9 +1118,18 @@ class C01(Spec):
                 return None
             tol = self.tol(c)
             scale = float(np.max(np.abs(full))) if len(full) else 1.0
+            if c.get('pristine') and c['kind'] == 'factory':
+                # the reference of the property, from an interpreter in which nothing else has run
+                ref = pristine_draw(c['tree'], nmax)
+                if not S.same(full, ref, tol):
+                    return (f'a single request for {nmax} samples differs from the same request in a fresh interpreter '
+                            f'at sample {S.first_diff(full, ref)}')
             for h, run in zip(hs, runs):
                 if isinstance(run, str) or any(isinstance(x, str) for x in run):
-                    return f'chunks {h}: raised {run if isinstance(run, str) else run[-1]} but a single request for {sum(h)} samples is served'
+                    err = run if isinstance(run, str) else next(x for x in run if isinstance(x, str))
+                    return f'chunks {h}: raised {err} but a single request for {sum(h)} samples is served'
+                if not h:
+                    continue            # nothing drawn between two resets
                 got = np.concatenate(run) if run else np.zeros(0)
                 want = full[:sum(h)] if sum(h) == nmax else np.array(S.build_real(c['tree']).next(sum(h)))
                 if got.shape != want.shape:
@@ -533,18 +1139,47 @@ class C01(Spec):
                     i = int(np.flatnonzero(bad)[0])
                     return (f'chunks {h} differ from a single request for {sum(h)} samples at sample {i}: '
                             f'{got[i]!r} vs {want[i]!r} ({int(bad.sum())} samples differ)')
+            if c['kind'] == 'factory' and c.get('twin'):
+                return self.twin_oracle(c, runs[len(hs)] if len(runs) > len(hs) else [])
             return None
         frag = last if last is not None else self.call_fn(c)
-        full = self.call_fn(c, 0, c['off'] + c['n'])
+        # the full envelope from sample 0; for offsets beyond 2^31 (no machine holds that envelope) a longer fragment
+        # that starts `back` samples earlier: two slices of one envelope agree where they overlap
+        base = c.get('base', 0)
+        full = self.call_fn(c, base, c['off'] + c['n'] - base, ref=True)
         if isinstance(frag, str) or isinstance(full, str):
             return None if frag == full else f'fragment: {frag if isinstance(frag, str) else "served"}, full: {full if isinstance(full, str) else "served"}'
-        want = full[c['off']:c['off'] + c['n']]
+        want = full[c['off'] - base:c['off'] - base + c['n']]
         if frag.shape != want.shape:
             return f"fragment (offset {c['off']}, samples {c['n']}) has {len(frag)} samples"
         if not np.array_equal(frag, want):
             i = int(np.flatnonzero(frag != want)[0])
             return (f"fragment (offset {c['off']}, samples {c['n']}) differs from the slice of the full envelope at "
                     f"{i}: {frag[i]!r} vs {want[i]!r}")
+        return None
+
+    def twin_oracle(self, c, run):
+        """The second object (built after the first, drawn interleaved with it) obeys the property by itself."""
+        tw = c['twin']
+        h = list(tw['chunks'])
+        n = sum(h)
+        try:
+            want = self.twin_ref.get(C.case_hash(c))
+            if want is None:
+                want = pristine_draw(tw['tree'], n) if c.get('pristine') else np.array(S.build_real(tw['tree']).next(n))
+            elif want.ndim == 0:
+                raise ValueError(str(want))
+        except self.ERRS as e:
+            refused = isinstance(run, str) or (len(run) > 0 and all(isinstance(x, str) for x in run))
+            return None if refused else f'second object: single request raises {type(e).__name__} but chunks are served'
+        if isinstance(run, str) or any(isinstance(x, str) for x in run):
+            return f'second object: chunks {h} raised but a single request for {n} samples is served'
+        got = np.concatenate(run) if run else np.zeros(0)
+        tol = S.FIR_TOL if S.is_fir(tw['tree']) else 0.0
+        if not S.same(got, want, tol):
+            i = S.first_diff(got, want)
+            return (f'second object (built after and drawn interleaved with the first): chunks {h} differ from a single '
+                    f'request for {n} samples at sample {i}' + (f': {got[i]!r} vs {want[i]!r}' if i >= 0 else ''))
         return None
 
     def nontrivial(self, c, out):
@@ -555,7 +1190,7 @@ class C01(Spec):
         return c['off'] > 0 and c['n'] > 0
 
     def kind(self, c):
-        return c['kind'] + (':' + c['cls'] if 'cls' in c else '')
+        return c['kind'] + (':' + c['cls'] if 'cls' in c else '') + ('/' + c['tag'] if c.get('tag') else '')
 
     def known(self, c, failure):
         return None
@@ -572,7 +1207,7 @@ class C01(Spec):
             for do in (-2, -1, 0, 1, 2):
                 for dn in (-1, 0, 1, 2):
                     d = dict(c)
-                    d['off'] = max(0, c['off'] + do)
+                    d['off'] = max(c.get('base', 0), c['off'] + do)
                     d['n'] = max(0, c['n'] + dn)
                     yield d
 
@@ -585,10 +1220,21 @@ class C01(Spec):
             if c['n'] > 1:
                 yield {**c, 'n': c['n'] // 2}
                 yield {**c, 'n': c['n'] - 1}
-            if c['off'] > 0:
+            if c['off'] > c.get('base', 0):
                 yield {**c, 'off': c['off'] - 1, 'n': c['n'] + 1}
+            for key in ('route', 'again', 'fsrep'):
+                if key in c:
+                    yield {k: v for k, v in c.items() if k != key}
             return
         ch = c['chunks']
+        for key in ('pristine', 'twin', 'pre', 'gsr', 'mutate', 'ntype', 'share'):
+            if key in c:
+                yield {k: v for k, v in c.items() if k != key}
+        if c.get('pre'):
+            yield {**c, 'pre': c['pre'][1:]}
+            yield {**c, 'pre': [h[:-1] for h in c['pre']]}
+        if c.get('twin') or c.get('gsr'):
+            return
         if 'in' in c['tree'] and c['tree']['t'] != 'repeat':
             yield {**c, 'tree': c['tree']['in']}
             if 'in' in c['tree']['in'] and c['tree']['in']['t'] != 'repeat':
